@@ -236,6 +236,7 @@ func c08Execute(rnd *rand.Rand) *c08Run {
 	var frags []*jen.Statement
 	var groups []*jen.Group
 	var usedPaths []int
+	var anonPending []int // pool paths that were Anon'd and that nothing refers to yet
 	for i := 0; i < 3; i++ {
 		pi := rnd.Intn(len(c08Paths))
 		usedPaths = append(usedPaths, pi)
@@ -336,6 +337,12 @@ func c08Execute(rnd *rand.Rand) *c08Run {
 			e.Out2, e.Err2 = render(func(b *bytes.Buffer) error { return g.RenderWithFile(b, f) })
 		case k < 9:
 			pi := rnd.Intn(len(c08Paths))
+			if len(anonPending) > 0 && rnd.Intn(2) == 0 {
+				// refer to a path that was blank-imported earlier and that nothing referred to so far
+				j := rnd.Intn(len(anonPending))
+				pi = anonPending[j]
+				anonPending = append(anonPending[:j], anonPending[j+1:]...)
+			}
 			e.Op, e.Arg = "Add", c08Paths[pi]
 			usedPaths = append(usedPaths, pi)
 			f.Add(c08Stmt(rnd, pi, &usedPaths))
@@ -375,7 +382,9 @@ func c08Execute(rnd *rand.Rand) *c08Run {
 					}
 				}
 				if len(free) > 0 {
-					p = c08Paths[free[rnd.Intn(len(free))]]
+					fi := free[rnd.Intn(len(free))]
+					p = c08Paths[fi]
+					anonPending = append(anonPending, fi)
 				}
 			}
 			e.Op, e.Arg = "Anon", p
